@@ -113,6 +113,8 @@ structure Inst where
   implVer : Nat := 0
   dead : List String := []       -- ids seen expired since the last merge (C12 expired_never_active_again)
   revived : List String := []    -- ids a merge turned from expired to unexpired (on the implementation's dumps)
+  msChanged : List String := []  -- ids whose stored matcher sets changed between two dumps (since the last reload)
+  lateAdded : List String := []  -- ids that appeared in the dump while a `Mutes` call was in flight (since the last reload)
   deriving Inhabited
 
 def find (l : List Mesh) (id : String) : Option Mesh := l.find? (·.sil.id = id)
@@ -148,9 +150,17 @@ def newDead (dead : List String) (cur : List Mesh) (now : Int) : List String :=
 def bruteMutedBy (cur : List Mesh) (now : Int) (ls : LabelSet) : List String :=
   sortStrs ((cur.filter fun m => getState m.sil now = .active && matchesSets reFrag m.sil.sets ls).map (·.sil.id))
 
+/-- ids whose matcher sets differ between two dumps of the implementation -/
+def setsChanged (prev cur : List Mesh) : List String :=
+  cur.filterMap fun q =>
+    match find prev q.sil.id with
+    | some p => if p.sil.sets ≠ q.sil.sets then some q.sil.id else none
+    | none => none
+
 def after (cfg : Cfg) (σ : Inst) (s : Store) (cur : List Mesh) (ver : String) (now : Int) (clearDead : Bool) : Inst :=
   let dead := if clearDead ∨ cfg.merges then [] else newDead σ.dead cur now
-  { σ with store := s, impl := cur, implVer := toNat! ver, dead := dead }
+  { σ with store := s, impl := cur, implVer := toNat! ver, dead := dead,
+           msChanged := setsChanged σ.impl cur ++ σ.msChanged }
 
 def errStr : Err → String
   | .notFound => "notfound" | .invalid => "invalid" | .limit => "limit" | .tooBig => "toobig"
@@ -185,6 +195,27 @@ def checkSetSpec (σ : Inst) (now : Int) (inp : SilIn) (okId : Option String) (c
         | some q => if q.sil.start < now then [Msg.propfail "create_start_not_past" "start-in-past" s!"id={x} start={q.sil.start} now={now}"] else []
         | none => [])      -- a version already past retention is not stored (documented corner, no claim)
      else [])
+
+/-- C02 `mutes_eq_bruteforce` on the implementation's own answer and dump: the verdict and the
+    `silencedBy` list must be the brute-force evaluation of the dumped silences, with the matchers
+    as dumped (evaluated here, independently of the implementation's compiled-matcher index).
+    The class names the hypothesis the failing history falls outside of. -/
+def mutesSpec (σ : Inst) (now : Int) (lsTok : String) (l : LabelSet) (v by_ : String) : List Msg :=
+  let spec := bruteMutedBy σ.impl now l
+  let specV := if spec.isEmpty then "0" else "1"
+  let implBy := splitList "." by_
+  let missing := spec.filter fun id => !implBy.contains id
+  let extra := implBy.filter fun id => !spec.contains id
+  let cls (dflt : String) : String :=
+    if (missing ++ extra).any σ.msChanged.contains then "stale-matcher-index"
+    else if missing.any σ.lateAdded.contains then "interleaved-update-lost"
+    else if missing.any σ.revived.contains then "revival"
+    else dflt
+  if specV ≠ v then
+    [Msg.propfail "mutes_eq_bruteforce" (cls "verdict") s!"ls={lsTok} now={now} mutes={v} brute={joinList "." spec}"]
+  else if joinList "." spec ≠ by_ then
+    [Msg.propfail "mutes_eq_bruteforce" (cls "silencedBy") s!"ls={lsTok} now={now} by={by_} brute={joinList "." spec}"]
+  else []
 
 /-- Replay one common op.  `none` = not a common op. -/
 def stepCommon (cfg : Cfg) (σ : Inst) (op obs : List String) : Option (Inst × List Msg) :=
@@ -358,22 +389,15 @@ def stepCommon (cfg : Cfg) (σ : Inst) (op obs : List String) : Option (Inst × 
     let s' := reload σ.store
     let cur := parseMeshes dmp
     let pf := if cur = σ.impl then [] else [Msg.propfail "reload_lossless" "reload-changed" s!"before={showMeshes σ.impl} after={dmp}"]
-    some ({ σ with store := s', cache := [], impl := cur, implVer := toNat! ver }, expectDump "reload" s' ver dmp ++ pf ++ [.tag "reload"])
+    some ({ σ with store := s', cache := [], impl := cur, implVer := toNat! ver, msChanged := [], lateAdded := [] },
+      expectDump "reload" s' ver dmp ++ pf ++ [.tag "reload"])
   | ["mutes", now, ls], [v, by_] =>
     let now := toInt! now
     let l := parseLs ls
     let r := mutes env σ.store σ.cache now l
     let mby := joinList "." (sortStrs r.silencedBy)
-    let spec := bruteMutedBy σ.impl now l
-    let specV := if spec.isEmpty then "0" else "1"
     let ce := cacheGet σ.cache l
-    let implBy := splitList "." by_
-    let missedRevived := spec.any fun id => !implBy.contains id ∧ σ.revived.contains id
-    let pf := (if specV ≠ v then
-                 [Msg.propfail "mutes_eq_bruteforce" (if missedRevived then "revival" else "verdict") s!"ls={ls} now={now} mutes={v} brute={joinList "." spec}"]
-               else if joinList "." spec ≠ by_ then
-                 [Msg.propfail "mutes_eq_bruteforce" (if missedRevived then "revival" else "silencedBy") s!"ls={ls} now={now} by={by_} brute={joinList "." spec}"]
-               else [])
+    let pf := mutesSpec σ now ls l v by_
     let tags : List Msg :=
       (if ce.version = σ.store.version ∧ ce.ids.isEmpty then [.tag "mutes:fast-path"]
        else if ce.version = σ.store.version then [.tag "mutes:recheck-cached"]
@@ -384,5 +408,93 @@ def stepCommon (cfg : Cfg) (σ : Inst) (op obs : List String) : Option (Inst × 
     let fps := (splitList ";" lss).map parseLs
     some ({ σ with cache := postGC σ.cache fps }, [.tag "postgc"])
   | _, _ => none
+
+/-! ### interleaved `Mutes` -/
+
+structure Inj where
+  pt : String
+  op : List String          -- inner op without the instance index
+  obs : Option (List String)  -- `none`: the implementation did not reach the point
+
+def parseInj (opTok obsTok : String) : Option Inj :=
+  match opTok.splitOn "~", obsTok.splitOn "~" with
+  | pt :: o :: _i :: rest, pt' :: obs =>
+    if pt ≠ pt' then none else some { pt, op := o :: rest, obs := if obs = ["-"] then none else some obs }
+  | _, _ => none
+
+/-- run the operations injected at point `pt` (when the model says the point is reached),
+    or check that none of them ran (when it says it is not) -/
+def firePoint (cfg : Cfg) (reached : Bool) (pt : String) (injs : List Inj) (σ : Inst) (dumps : List (List Mesh)) :
+    Inst × List (List Mesh) × List Msg :=
+  injs.foldl (fun (acc : Inst × List (List Mesh) × List Msg) j =>
+    if j.pt ≠ pt then acc else
+    let (σ, dumps, msgs) := acc
+    match reached, j.obs with
+    | false, none => (σ, dumps, msgs ++ [.tag s!"imutes:{pt}-not-reached"])
+    | false, some _ => (σ, dumps, msgs ++ [.diff s!"imutes.{pt}" "not-reached" "fired"])
+    | true, none => (σ, dumps, msgs ++ [.diff s!"imutes.{pt}" "fired" "not-reached"])
+    | true, some obs =>
+      match stepCommon cfg σ j.op obs with
+      | some (σ', m) =>
+        let added := (σ'.impl.filter fun q => (find σ.impl q.sil.id).isNone).map (·.sil.id)
+        ({ σ' with lateAdded := added ++ σ'.lateAdded }, dumps ++ [σ'.impl], msgs ++ m ++ [.tag s!"imutes:{pt}:{j.op.headD "?"}"])
+      | none => (σ, dumps, msgs ++ [.diff "parse" "?" (" ".intercalate j.op)])) (σ, dumps, [])
+
+/-- `imutes now ls <pt>~<op>… -> v by <pt>~<obs>…`: one `Mutes` call with store operations
+    between its steps, replayed on `mutesI`'s micro-steps.  Spec on the implementation's own
+    answers (C02 `mutes_interleaved_bracket`): every id reported is active and matching in one of
+    the dumps seen during the call, every id active and matching in all of them is reported, the
+    verdict is "some id reported". -/
+def stepImutes (cfg : Cfg) (σ : Inst) (op obs : List String) : Option (Inst × List Msg) :=
+  match op, obs with
+  | "imutes" :: now :: ls :: injToks, v :: by_ :: obsToks =>
+    let now := toInt! now
+    let l := parseLs ls
+    let injs := (injToks.zip obsToks).filterMap fun (a, b) => parseInj a b
+    if injs.length ≠ injToks.length ∨ injToks.length ≠ obsToks.length then some (σ, [.diff "parse" "?" "imutes"]) else
+    let k := mBegin σ.store σ.cache l
+    let dumps0 := [σ.impl]
+    let (σ3, dumps, msgs, out, tag) : Inst × List (List Mesh) × List Msg × MutesOut × String :=
+      if k.fast then
+        let (σc, d, m) := ["q1", "e1", "q2", "e2", "w"].foldl (fun (acc : Inst × List (List Mesh) × List Msg) pt =>
+          let (σx, d, m) := firePoint cfg false pt injs acc.1 acc.2.1
+          (σx, d, acc.2.2 ++ m)) (σ, dumps0, [])
+        (σc, d, m, ⟨σc.cache, false, []⟩, "fast-path")
+      else
+        let hasOld := !k.ce.ids.isEmpty
+        let hasNew := !k.upToDate
+        let two := hasOld && hasNew
+        -- first query: the cached ids if there are any, else the since-scan
+        let (σ1, d, m1) := firePoint cfg true "q1" injs σ dumps0
+        let k1 := if hasOld then mOld false env σ1.store now k else mNew env σ1.store now l k
+        let (σ1e, d, m1e) := firePoint cfg true "e1" injs σ1 d
+        let (σ2, d, m2) := firePoint cfg two "q2" injs σ1e d
+        let k2 := if two then mNew env σ2.store now l k1 else k1
+        let (σ2e, d, m2e) := firePoint cfg two "e2" injs σ2 d
+        let (σ3, d, m3) := firePoint cfg (!(k2.old ++ k2.new).isEmpty) "w" injs σ2e d
+        (σ3, d, m1 ++ m1e ++ m2 ++ m2e ++ m3, mEnd σ3.cache now l k2,
+          if two then "cached+since" else if hasOld then "recheck-cached" else "scan-since")
+    let mby := joinList "." (sortStrs out.silencedBy)
+    let implBy := splitList "." by_
+    let brutes := dumps.map fun d => bruteMutedBy d now l
+    let unsound := implBy.filter fun id => !(brutes.any (·.contains id))
+    let incomplete := (brutes.headD []).filter fun id => brutes.all (·.contains id) ∧ !implBy.contains id
+    let pf : List Msg :=
+      (if unsound.isEmpty then [] else
+        [Msg.propfail "mutes_interleaved_bracket" "interleaved-unsound" s!"ls={ls} now={now} by={by_} never-active-matching={joinList "." unsound}"]) ++
+      (if incomplete.isEmpty then [] else
+        [Msg.propfail "mutes_interleaved_bracket" "interleaved-incomplete" s!"ls={ls} now={now} by={by_} always-active-matching={joinList "." incomplete}"]) ++
+      (if (v = "1") ≠ !implBy.isEmpty then
+        [Msg.propfail "mutes_interleaved_bracket" "interleaved-verdict" s!"ls={ls} now={now} mutes={v} by={by_}"] else [])
+    some ({ σ3 with cache := out.cache },
+      msgs ++ expectEq "imutes.verdict" (if out.muted then "1" else "0") v ++ expectEq "imutes.by" mby by_ ++ pf ++
+      [.tag s!"imutes:{tag}"] ++ (if dumps.length > 1 then [.tag "imutes:interleaved"] else []))
+  | _, _ => none
+
+/-- common ops + interleaved Mutes -/
+def stepSil (cfg : Cfg) (σ : Inst) (op obs : List String) : Option (Inst × List Msg) :=
+  match op with
+  | "imutes" :: _ => stepImutes cfg σ op obs
+  | _ => stepCommon cfg σ op obs
 
 end Driver.Sil
